@@ -218,9 +218,18 @@ def coq_bool(b) -> str:
 # ---------------------------------------------------------------------------
 
 def load_known_findings() -> dict:
+    kf = {"findings": [], "fixed": []}
     if os.path.exists(KF_FILE):
-        return json.load(open(KF_FILE))
-    return {"findings": [], "fixed": []}
+        kf = json.load(open(KF_FILE))
+    # per-property parts (folded into known_findings.json by the lead when branches are merged)
+    d = os.path.join(VERIF, "known_findings.d")
+    if os.path.isdir(d):
+        for f in sorted(os.listdir(d)):
+            if f.endswith(".json"):
+                part = json.load(open(os.path.join(d, f)))
+                kf.setdefault("findings", []).extend(part.get("findings", []))
+                kf.setdefault("fixed", []).extend(part.get("fixed", []))
+    return kf
 
 
 # ---------------------------------------------------------------------------
